@@ -18,18 +18,9 @@ structure View where
   fields : List FView
   deriving DecidableEq, Repr, Inhabited
 
-/-- group consecutive fields whose name has the same prefix before the first '.' -/
-def paramIdx : List Field → Nat → Option String → List Nat
-  | [], _, _ => []
-  | f :: rest, k, prev =>
-    let base := (f.name.splitOn ".").headD f.name
-    if prev = some base then (k - 1) :: paramIdx rest k prev
-    else k :: paramIdx rest (k + 1) (some base)
-
 def viewOf (d : CmdDesc) : View :=
-  { header := d.header,
-    statusIdx := d.fields.findIdx? (fun f => f.name == "StatusCode"),
-    fields := (d.fields.zip (paramIdx d.fields 0 none)).map fun (f, p) => ⟨f.wt, f.optional, p, f.enumVals⟩ }
+  { header := d.header, statusIdx := d.statusIdx,
+    fields := d.fields.map fun f => ⟨f.wt, f.optional, f.param, f.enumVals⟩ }
 
 def ctype (v : View) : Nat := v.header / 256 % 256
 def cmdId (v : View) : Nat := v.header / 65536
@@ -117,5 +108,62 @@ def parseLoop (v : View) : List FView → List FView → Assign → Bytes → Ex
 
 /-- `cls.from_frame(frame)` on the HL payload (header already matched) -/
 def fromPayload (v : View) (payload : Bytes) : Except Err Decoded := parseLoop v [] v.fields [] payload
+
+end Zboss.Codec
+
+namespace Zboss.Codec
+open Wire
+
+/-- least number of bytes a (non-greedy) parameter occupies -/
+def minSize : WT → Nat
+  | .sc t => t.size
+  | .lvBytes h => h
+  | .lvList h _ => h
+  | .greedy _ => 0
+  | .simpleDesc => 8
+
+def greedyOk : WT → Bool
+  | .greedy ts => 0 < recSize ts
+  | _ => true
+
+/-- shape every schema the host parses has: a greedy list only as the last field, optional parameters
+    trailing, non-greedy optional parameters occupy at least one byte and are parameters of their own -/
+def fieldsOk : List FView → Bool
+  | [] => true
+  | [f] => greedyOk f.wt && (f.wt.isGreedy || !f.optional || 0 < minSize f.wt)
+  | f :: g :: rest =>
+    !f.wt.isGreedy && (!f.optional || (0 < minSize f.wt && (g :: rest).all (·.optional))) &&
+    (!f.optional || true) && fieldsOk (g :: rest)
+
+/-- no earlier wire field belongs to the same Python parameter as an optional field -/
+def optParamsOwn (fs : List FView) : Bool :=
+  (List.range fs.length).all fun i =>
+    match fs[i]? with
+    | some f => !f.optional || (fs.take i).all (fun g => g.param != f.param)
+    | none => true
+
+def SchemaOK (v : View) : Bool :=
+  fieldsOk v.fields && optParamsOwn v.fields &&
+  (ctype v != 1 || (v.statusIdx == some 2 && ((v.fields.take 3).map fun f => (f.wt, f.optional)) ==
+      [(.sc (.uint 1), false), (.sc (.uint 1), false), (.sc (.uint 1), false)]))
+
+/-- the one ambiguity of the wire format: an omitted optional *greedy* list has the same bytes as an empty
+    list, so it decodes to the empty list (the parse only gets there when everything before was given) -/
+def canon : List FView → Assign → Assign
+  | f :: _, none :: xs => if f.wt.isGreedy then some (.rows []) :: xs else none :: xs
+  | _ :: fs, some x :: xs => some x :: canon fs xs
+  | _, a => a
+
+/-- a valid assignment for the remaining fields: given values are serializable; a parameter may be
+    omitted only if it is optional, and then all later ones are omitted too -/
+def assignOk : List FView → Assign → Bool
+  | [], [] => true
+  | f :: fs, some x :: xs => (encW f.wt x).isSome && assignOk fs xs
+  | f :: fs, none :: xs => f.optional && xs.all (·.isNone) && xs.length == fs.length
+  | _, _ => false
+
+def Decoded.assign : Decoded → Assign
+  | .full a => a
+  | .partialCmd a => a
 
 end Zboss.Codec
